@@ -4,9 +4,9 @@
    quantified; sensor_valid_statuses / sensor_status_width are regenerated from the source on every run. *)
 From Coq Require Import ZArith QArith List Bool String.
 From KV Require Import Base.Sx Base.Str Gen.Generated Model.Interp Model.SensorCache Model.SensorWild Model.SensorVirt
-  Model.SensorKeep Model.SensorTmpl Model.SensorApi Model.SensorFill
+  Model.SensorKeep Model.SensorTmpl Model.SensorApi Model.SensorFill Model.SensorV4
   Proofs.InterpP Proofs.SensorCacheP Proofs.SensorWildP Proofs.SensorVirtP
-  Proofs.SensorKeepP Proofs.SensorTmplP Proofs.SensorApiP Proofs.SensorFillP Proofs.SensorShapeP.
+  Proofs.SensorKeepP Proofs.SensorTmplP Proofs.SensorApiP Proofs.SensorFillP Proofs.SensorShapeP Proofs.SensorV4P.
 Import ListNotations.
 Open Scope Q_scope.
 
@@ -740,3 +740,55 @@ Theorem C12_concat_fill_examples :
   snd (cfill [(2%nat, SMissing); (1%nat, SMissing)] (mkFP None None)) = CKey.
 Proof. exact cfill_examples. Qed.
 Print Assumptions C12_concat_fill_examples.
+
+(* ---- the v4-only virtual sensors Correlator/Inputs/{inp}/applied_delay | applied_phase ---- *)
+(* Read through the cache, the sensor built by _calc_delay from the CBF updates (chronological, more than 1e-6 s apart)
+   goes through the ordinary extraction unchanged: every dump gets the interpolation of the built nodes. *)
+Theorem C12_v4_applied_read : forall which S F ups ts fin,
+  v4_final S F ups ts = Some fin -> ups_ok S F fin ups ->
+  v4_applied which S F ups ts =
+  XVals (map (fun t => Some (interp_d (sh (offset_of p_empty)
+                                          (if which then v4_nodes S F fin u_d u_dr ups
+                                           else v4_nodes S F fin u_p u_pr ups)) t)) ts).
+Proof. exact v4_applied_values. Qed.
+Print Assumptions C12_v4_applied_read.
+
+(* The documented function: between an update and (1e-6 s before) the next one - and after the last update up to
+   final_time - the value is the update's value advanced at the update's own rate; before the first update the first
+   value is held; and the independent statement "latest update at or before t" (spec_applied) names the same update. *)
+Theorem C12_v4_applied_piecewise :
+  (forall S F fin val rate pre u post off t,
+     ups_ok S F fin (pre ++ u :: post)%list -> u_time S F u + off <= t ->
+     t <= match post with v :: _ => u_time S F v - v4_eps | [] => fin end + off ->
+     interp_d (sh off (v4_nodes S F fin val rate (pre ++ u :: post)%list)) t
+       == val u + rate u * (t - (u_time S F u + off))) /\
+  (forall S F fin val rate u rest off t,
+     ups_ok S F fin (u :: rest) -> t <= u_time S F u + off ->
+     interp_d (sh off (v4_nodes S F fin val rate (u :: rest))) t == val u) /\
+  (forall S F fin val rate pre u post t,
+     ups_ok S F fin (pre ++ u :: post)%list -> u_time S F u <= t ->
+     t <= match post with v :: _ => u_time S F v - v4_eps | [] => fin end ->
+     spec_applied S F val rate (pre ++ u :: post)%list t = Some (val u + rate u * (t - u_time S F u))) /\
+  (forall S F fin val rate u rest t,
+     ups_ok S F fin (u :: rest) -> t < u_time S F u -> spec_applied S F val rate (u :: rest) t = Some (val u)) /\
+  (forall S F u0 ups t0 ts, v4_final S F (u0 :: ups) (t0 :: ts) =
+     Some (qmax (u_time S F (List.last (u0 :: ups) u0)) (List.last (t0 :: ts) t0) + 1)) /\
+  (forall a b, a <= qmax a b /\ b <= qmax a b).
+Proof.
+  exact (conj v4_piecewise (conj v4_before_first (conj v4_spec_piecewise (conj v4_spec_before_first
+          (conj v4_final_spec qmax_ge))))).
+Qed.
+Print Assumptions C12_v4_applied_piecewise.
+
+Theorem C12_v4_applied_example :
+  let ups := [mkU 0 1 (-1) 0 2; mkU 8 2 0 10 3; mkU 16 3 1 20 4] in
+  let ts := [98; 100; 101; 103; 104; 106; 108; 110] in
+  SensorV4.of_xres (v4_applied true 100 2 ups ts)
+    = L [I 0%Z; L (map (fun z => of_qn (Some (inject_Z z))) [1; 1; 0; -2; 2; 2; 3; 5]%Z)] /\
+  L (map (fun t => of_qn (spec_applied 100 2 u_d u_dr ups t)) ts)
+    = L (map (fun z => of_qn (Some (inject_Z z))) [1; 1; 0; -2; 2; 2; 3; 5]%Z) /\
+  SensorV4.of_xres (v4_applied false 100 2 ups ts)
+    = L [I 0%Z; L (map (fun z => of_qn (Some (inject_Z z))) [0; 0; 2; 6; 10; 16; 20; 28]%Z)] /\
+  v4_applied true 100 2 [] ts = XErr /\ v4_applied true 100 2 ups [] = XErr.
+Proof. exact v4_example. Qed.
+Print Assumptions C12_v4_applied_example.
